@@ -97,6 +97,10 @@ type implInst struct {
 	s      *syncer.Syncer
 	st     simpleblob.Interface
 	native bool
+	// lastRet: what the sync loop would hold as lastSyncedTxnID (protocol token "R")
+	lastRet uint64
+	// overridden: DBIs with override_create_flags in the configuration
+	overridden map[string]bool
 }
 
 var insts = map[string]*implInst{}
@@ -380,7 +384,11 @@ func init() {
 			closeEnv(env, dir)
 			return "err new"
 		}
-		insts[id] = &implInst{id: id, env: env, dir: dir, s: s, st: sharedStore, native: a[1] == "1"}
+		ovr := map[string]bool{}
+		for n := range override {
+			ovr[n] = true
+		}
+		insts[id] = &implInst{id: id, env: env, dir: dir, s: s, st: sharedStore, native: a[1] == "1", overridden: ovr}
 		return "ok"
 	}
 	implOps["env.app"] = func(a []string) string {
@@ -471,6 +479,12 @@ func init() {
 		if err != nil {
 			return "err " + txnErrClass(err)
 		}
+		if !lc {
+			i.lastRet = uint64(txnID)
+		}
+		if uint64(txnID) > uint64(lastTxnID(i.env)) {
+			return fmt.Sprintf("FAIL LoadOnce-returned-an-id-no-recorded-transaction-has returned=%d last=%d", uint64(txnID), lastTxnID(i.env))
+		}
 		return fmt.Sprintf("ok %d %s T%d", uint64(txnID), b2s(lc), lastTxnID(i.env))
 	}
 	implOps["txn.send"] = func(a []string) string {
@@ -480,6 +494,12 @@ func init() {
 		w.end()
 		if err != nil {
 			return "err " + txnErrClass(err)
+		}
+		i.lastRet = uint64(txnID)
+		if uint64(txnID) > uint64(lastTxnID(i.env)) {
+			// the loop would take an id no recorded transaction has for "synced up to here":
+			// the next application commit gets that id and is never noticed (C09, C03)
+			return fmt.Sprintf("FAIL SendOnce-returned-an-id-no-recorded-transaction-has returned=%d last=%d", uint64(txnID), lastTxnID(i.env))
 		}
 		// decode what was stored
 		snapStr := fmt.Sprintf("%d,%d,-", snapshot.CurrentFormatVersion, snapshot.WriteCompatFormatVersion)
@@ -531,6 +551,8 @@ func relTxn(i *implInst, s string) uint64 {
 		return t - 1
 	case "T+1":
 		return t + 1
+	case "R":
+		return i.lastRet
 	}
 	return u64(s)
 }
